@@ -193,19 +193,19 @@ namespace pika::split_tuple_detail {
 
             void operator()(pika::execution::detail::stopped_type)
             {
-                constexpr bool sends_stopped =
 #if defined(PIKA_HAVE_STDEXEC)
-                    pika::execution::experimental::sends_stopped<Sender,
-                        pika::execution::experimental::empty_env>
-#else
-                    pika::execution::experimental::sender_traits<Sender>::sends_done
-#endif
-                    ;
+                constexpr bool sends_stopped = pika::execution::experimental::sends_stopped<Sender,
+                    pika::execution::experimental::empty_env>;
                 if constexpr (sends_stopped)
                 {
                     pika::execution::experimental::set_stopped(std::move(receiver));
                 }
                 else { PIKA_UNREACHABLE; }
+#else
+                // The predecessor has sent stopped. sender_traits<Sender>::sends_done says nothing
+                // about that: the adaptors declare it false and forward set_stopped all the same.
+                pika::execution::experimental::set_stopped(std::move(receiver));
+#endif
             }
 
             void operator()(error_type const& error)
